@@ -517,7 +517,7 @@ def r9(R):
 @rule('C16.R10', 'a commit through a demo storage gets an id later than the '
       'last transaction of BOTH layers: unless the caller supplies the id, '
       'tpc_begin consults the base before it lets the changes storage '
-      'choose', props=['C04'], min_instances=1)
+      'choose', props=['C04', 'C02'], min_instances=1)
 def r10(R):
     cls = R.prog.cls(DS)
     f = R.method(cls, 'tpc_begin')
@@ -556,7 +556,43 @@ def r10(R):
                         return 'caller-id'
         return st
 
+    def calls(e, node, path):
+        # the expression itself (through single-definition locals), not
+        # what a method of this class called there may consult in turn
+        from ..twopc import resolve_local
+        e = resolve_local(e, F, node.frame)
+        return isinstance(e, ast.Call) and dotted(e.func) == path
+
     def at(node, st):
+        if node.kind == 'test':
+            # the test that decides whether the base's last id overrides:
+            # it is held against the last id of the storage that would
+            # otherwise CHOOSE -- the changes storage (the demo storage's
+            # own lastTransaction() answers with the base's while the
+            # changes are empty: the very first commit would slip through)
+            for c in ast.walk(node.ast):
+                if not (isinstance(c, ast.Compare) and len(c.ops) == 1):
+                    continue
+                sides = [c.left, c.comparators[0]]
+                for a_, b_ in (sides, sides[::-1]):
+                    if calls(a_, node, ('self', 'base', 'lastTransaction')) \
+                            and not calls(a_, node, ('self', 'changes',
+                                                     'lastTransaction')) \
+                            and not (isinstance(b_, ast.Constant)):
+                        if not calls(b_, node, ('self', 'changes',
+                                                'lastTransaction')):
+                            return Violation(
+                                'DemoStorage.tpc_begin holds the base\'s '
+                                'last transaction id against `%s`, not '
+                                'against the last id of the changes '
+                                'storage, which is the one that would '
+                                'choose the new id: while the changes are '
+                                'empty the demo storage\'s own '
+                                'lastTransaction() IS the base\'s, the '
+                                'first commit gets an id below a base '
+                                'stamped ahead of the clock, and '
+                                'lastTransaction() goes backwards' %
+                                ' '.join(ast.unparse(b_).split())[:50])
         for op in F.ops(node):
             if op.kind == 'call' and path_is(
                     op.path, ('self', 'changes', 'tpc_begin')):
